@@ -27,7 +27,7 @@ def main():
     open(pf, "w").write(patch)
     rc, out = sh("git -C /repo apply --3way %s" % pf)
     if rc != 0:
-        sh("git -C /repo checkout -- . ; git -C /repo reset -q")
+        sh("git -C /repo reset -q ; git -C /repo checkout -- .")
         print("reverse patch does not apply:", out[-300:])
         return 2
     sh("git -C /repo reset -q")
